@@ -133,6 +133,7 @@ class Ctx:
         self.axioms = list(axioms)
         self.const_sort = {}
         self.predefined = set()
+        self.predeclared_opts = []
 
     def fresh(self, sort, hint="v", cls=None):
         self.n += 1
@@ -173,7 +174,8 @@ class Ctx:
             out.append(self.user_prelude)
         # datatypes in dependency order: optsorts/tupsorts were registered children-first
         done = []
-        pending = [("o", o) for o in self.optsorts] + [("t", t) for t in self.tupsorts]
+        pending = [("o", o) for o in self.optsorts if o not in self.predeclared_opts] + [("t", t) for t in self.tupsorts]
+        done += [o for o in self.optsorts if o in self.predeclared_opts]
 
         def deps_ok(s):
             def walk(x):
